@@ -9,6 +9,23 @@ pub struct FiniteField<const P: u128> {
     v: u128,
 }
 
+/// computes `(a * b) % P` without overflowing `u128`; requires `a, b < P < 2^127`
+fn mul_mod<const P: u128>(a: u128, b: u128) -> u128 {
+    if a <= u64::MAX as u128 && b <= u64::MAX as u128 {
+        return (a * b) % P;
+    }
+    // double-and-add; all intermediate values stay below 2 * P
+    let (mut acc, mut a, mut b) = (0u128, a, b);
+    while b > 0 {
+        if b & 1 == 1 {
+            acc = (acc + a) % P;
+        }
+        a = (a + a) % P;
+        b >>= 1;
+    }
+    acc
+}
+
 impl<const P: u128> FiniteField<P> {
     pub fn new(v: u128) -> FiniteField<P> {
         FiniteField { v: v % P }
@@ -47,7 +64,7 @@ impl<const P: u128> ops::Mul<FiniteField<P>> for FiniteField<P> {
     type Output = FiniteField<P>;
 
     fn mul(self, rhs: FiniteField<P>) -> Self::Output {
-        FiniteField::new((self.v * rhs.v) % P)
+        FiniteField::new(mul_mod::<P>(self.v, rhs.v))
     }
 }
 
